@@ -172,8 +172,45 @@ def profile_data(ctx):
               required="transaction_conflicts[id(t)] = ids of t's neighbours in the manager's conflict graph")
 
 
+def parents_table(ctx):
+    """A running method is attributed to a running parent: the parents table lists, for every method, every body that
+    calls it (MethodMap.method_parents), and ProfileData.make copies it id by id."""
+    MANAGER = "transactron/core/manager.py"
+    ctx.use(MANAGER)
+    init = Fn(ctx.repo, MANAGER, "MethodMap.__init__", "C35")
+    ok = False
+    detail = "no insertion into a parents table"
+    for ex, e in init.facts(Effect):
+        m = pmatch("self.method_parents[MBody(Q_m._body)].append(Q_p)", e.call)
+        if m is None:
+            continue
+        lp = loops(e)
+        detail = f"{tstr(e.call)} over {[tstr(l[1]) for l in lp]} if {fstr(py_guard(e))}"
+        if len(lp) == 2 and pmatch("self.methods_and_transactions", lp[0][1]) is not None and m["p"] == lp[0][0][0] and m["m"] == lp[1][0][0] \
+                and lp[1][1] in (("a", m["p"], "method_calls"), ("call", ("a", ("a", m["p"], "method_calls"), "keys"), (), ())) and py_guard(e) is True:
+            ok = True
+    ctx.check(ok, "C35.parents-table", init.site, "MethodMap.method_parents", found=detail,
+              required="method_parents[called method] gets every method / transaction whose body calls it")
+    fn = Fn(ctx.repo, PROF, "ProfileData.make", "C35")
+    ok = False
+    detail = "no copy of the parents table"
+    for ex, s in fn.facts(St):
+        lp = loops(s)
+        if len(lp) != 1 or s.value[0] != "lc" or "method_parents" not in tstr(s.value):
+            continue
+        mth = lp[0][0][0]
+        detail = f"{tstr(s.target)} = {tstr(s.value)[:160]}"
+        idf = s.target[2][1] if s.target[0] == "i" and s.target[2][0] == "call" else None
+        gens = s.value[3]
+        ok = (idf is not None and s.target[2][2] == (mth,) and len(gens) == 1 and pmatch("Q_mm.method_parents[Q_k]", gens[0][1]) is not None
+              and pmatch("Q_mm.method_parents[Q_k]", gens[0][1])["k"] == mth and not gens[0][2] and s.value[2] == ("call", idf, (gens[0][0],), ()) and py_guard(s) is True)
+    ctx.check(ok, "C35.parents-table.copied", fn.site, "ProfileData.make.method_parents", found=detail,
+              required="method_parents[id(method)] = ids of all of method_map.method_parents[method]")
+
+
 def check(ctx):
     ctx.use(PROF, TPROF)
+    parents_table(ctx)
     cycle_profile(ctx)
     analyze(ctx)
     sampling(ctx)
